@@ -66,19 +66,21 @@ structure Entry where
   pq : PQ
   repl : Repl
   noneVisit : Bool
+  orStyle : Bool     -- the branch writes `query_traversal(child, …) or child`: a *falsy* result is dropped
 deriving DecidableEq, Repr
 
 structure ClassRow where
   kinds : List Kind      -- kind of slot i
   print : List Nat       -- slots in the order in which `to_string()` prints them
   walk : List Entry      -- the branch of `query_traversal` for this class
+  falsy : Bool           -- the class defines `__len__` / `__bool__`: an instance without children is falsy
 deriving DecidableEq, Repr
 
 def ClassRow.kind (r : ClassRow) (s : Nat) : Kind := r.kinds.getD s .name
 
 abbrev Schema := List ClassRow
 
-def Schema.row (σ : Schema) (c : Nat) : ClassRow := σ.getD c ⟨[], [], []⟩
+def Schema.row (σ : Schema) (c : Nat) : ClassRow := σ.getD c ⟨[], [], [], false⟩
 
 /-- one call of the callback: the node (or `None`), the flags, the class of `parent_query`
 (0 = `None`) and what the callback answered -/
@@ -102,6 +104,7 @@ structure Out (S : Type) where
   self : Node            -- the (mutated) original node
   st : S
   log : List Visit
+  truthy : Bool          -- Python truthiness of `repl` (what `… or child` looks at)
 
 /-- a traversal still waiting for its flags, `parent_query` and the state -/
 abbrev Tr (S : Type) := Bool → Bool → Nat → S → Out S
@@ -118,7 +121,8 @@ def applyRepl (e : Entry) (k : Node) (o : Out S) : Node :=
   match o.repl with
   | none => o.self
   | some r =>
-    match e.repl with
+    if e.orStyle && !o.truthy then k        -- `query_traversal(child, …) or child` with a falsy result
+    else match e.repl with
     | .discard => k
     | .outer => r.setSlot k.slot
     | .same => match e.via with
@@ -158,15 +162,25 @@ def runRow (cb : Cb S) (c pq : Nat) : List Entry → List (Item S) → List Node
     let r2 := runRow cb c pq es its r1.1 r1.2.1
     (r2.1, r2.2.1, r1.2.2 ++ r2.2.2)
 
+/-- Python truthiness of a node object: an instance of a class that defines `__len__` / `__bool__` is modelled as falsy
+when it has no children (an empty container such as `Tuple(items=[])`), every other object is truthy -/
+def truthyIn (σ : Schema) (n : Node) : Bool := !((σ.row n.cls).falsy && n.kids.isEmpty)
+
+/-- Python's `a or b` for `a : Optional[node]`: `b` when `a` is `None` *or falsy* -/
+def pyOr (truthy : Node → Bool) (a : Option Node) (b : Node) : Node :=
+  match a with
+  | some r => if truthy r then r else b
+  | none => b
+
 /-- body of `query_traversal` for a node whose children's traversals are `its` -/
 def step (σ : Schema) (cb : Cb S) (c s t : Nat) (ks : List Node) (its : List (Item S)) : Tr S :=
   fun it ig pq st =>
     let r := cb st (some (.mk c s t ks)) it ig pq
     match r.1 with
-    | some x => ⟨some x, .mk c s t ks, r.2, [⟨some (.mk c s t ks), it, ig, pq, some x⟩]⟩
+    | some x => ⟨some x, .mk c s t ks, r.2, [⟨some (.mk c s t ks), it, ig, pq, some x⟩], truthyIn σ x⟩
     | none =>
       let w := runRow cb c pq (σ.row c).walk its ks r.2
-      ⟨none, .mk c s t w.1, w.2.1, ⟨some (.mk c s t ks), it, ig, pq, none⟩ :: w.2.2⟩
+      ⟨none, .mk c s t w.1, w.2.1, ⟨some (.mk c s t ks), it, ig, pq, none⟩ :: w.2.2, true⟩
 
 /-- `query_traversal(child.<q>, …)` for the first grandchild in slot `q` (CTE: `cte.query`):
 returns the result, the child's new children list, the state and the log -/
@@ -183,7 +197,7 @@ def viaRun (q : Nat) (a b : Bool) (pq : Nat) : List (Item S) → List Node → S
 def viaStep (c s t : Nat) (ks : List Node) (its : List (Item S)) : Nat → Tr S :=
   fun q a b pq st =>
     let r := viaRun q a b pq its ks st
-    ⟨r.1, .mk c s t r.2.1, r.2.2.1, r.2.2.2⟩
+    ⟨r.1, .mk c s t r.2.1, r.2.2.1, r.2.2.2, true⟩
 
 mutual
 def tr (σ : Schema) (cb : Cb S) : Node → Tr S
